@@ -23,7 +23,7 @@ ANCHOR_FILES = ["menelaus/detector.py", "menelaus/change_detection/cusum.py", "m
                 "menelaus/injection/label_manipulation.py"]
 RULE = (
     "detector cases: one per (detector, parameters, history, container layout - ndarray C order / Fortran order / strided view / "
-    "single-dtype DataFrame / mixed-dtype DataFrame / re-used one-row buffer (ndarray and DataFrame) / 1-element label arrays): the "
+    "read-only view of writable memory / single-dtype DataFrame (one column included) / mixed-dtype DataFrame / re-used one-row buffer (ndarray, read-only view, DataFrame) / 1-element label arrays): the "
     "caller-side overwrite is applied after *every* call position (reference batches, test batches, single observations) in run A "
     "and never in run B (private copies); arguments are snapshotted around every call.  Injector cases: every injector on the further "
     "layouts.  Non-trivial = the history contains a drift and at least 5 overwrites happened before a later decision; distinct = "
@@ -35,7 +35,7 @@ ASSUMPTIONS = [
     "garbage written by the caller is finite (1e6-scale) so that a live reference changes later outputs instead of crashing",
 ]
 
-LAYOUTS_X = ["c_order", "fortran", "view", "frame", "mixed_frame", "buffer", "frame_buffer"]
+LAYOUTS_X = ["c_order", "fortran", "view", "readonly_view", "frame", "mixed_frame", "buffer", "frame_buffer", "readonly_buffer"]
 LAYOUTS_Y = ["arrays", "lists", "series"]
 
 
@@ -46,7 +46,7 @@ def cases(tier, seed):
         lays = LAYOUTS_Y if zoo.kind(name) == "y" else LAYOUTS_X
         cost = {"PCACD": 5, "KdqTreeStreaming": 4, "LinearFourRates": 3, "KdqTreeBatch": 3}.get(name, 1)
         for lay in lays:
-            if lay in ("buffer", "frame_buffer") and zoo.kind(name) == "batch":
+            if lay in ("buffer", "frame_buffer", "readonly_buffer") and zoo.kind(name) == "batch":
                 continue
             for i in range(n):
                 out.append({"id": "det/%s/%s/%d" % (name, lay, i), "kind": "det", "det": name, "layout": lay, "seed": [seed, 15, i], "cost": cost})
@@ -70,6 +70,11 @@ def make_obj(val, layout, names=None, mixed_ok=True):
         return np.ascontiguousarray(a.copy())
     if layout == "fortran":
         return np.asfortranarray(a.copy())
+    if layout in ("readonly_view", "readonly_buffer"):
+        # what DataFrame.to_numpy() / a defensive API hands out: a read-only view of memory its owner can still write to
+        v = np.ascontiguousarray(a.copy()).view()
+        v.flags.writeable = False
+        return v
     if layout == "view":
         big = np.zeros((a.shape[0] * 2, a.shape[1] * 3))
         big[::2, ::3] = a
@@ -113,6 +118,8 @@ def clobber(o):
     elif isinstance(o, pd.Series):
         o.iloc[:] = 7
     elif isinstance(o, np.ndarray):
+        if not o.flags.writeable:
+            o = o.base  # the owner of the memory writes
         o[...] = 1.0e6 if o.dtype.kind == "f" else 7
     elif isinstance(o, list):
         for i in range(len(o)):
@@ -131,12 +138,14 @@ def run(name, params, calls, layout, alias, key, ctx, count):
             mk = {"arrays": lambda v: np.array([v]), "lists": lambda v: [v], "series": lambda v: pd.Series([v])}[layout]
             args = [mk(yt), mk(yp)]
         else:
-            if layout in ("buffer", "frame_buffer") and alias:
+            if layout in ("buffer", "frame_buffer", "readonly_buffer") and alias:
                 # realistic streaming pattern: one buffer object, refilled in place for every observation
                 if buf is None:
                     buf = make_obj(val, layout)
                 elif isinstance(buf, pd.DataFrame):
                     buf.iloc[:, :] = np.asarray(val, dtype=float)
+                elif layout == "readonly_buffer":
+                    buf.base[...] = np.asarray(val, dtype=float)
                 else:
                     buf[...] = np.asarray(val, dtype=float)
                 args = [buf]
@@ -162,7 +171,7 @@ def run(name, params, calls, layout, alias, key, ctx, count):
                 ctx.violation("C15/%s/argument_modified/%s" % (name, layout), "%s.%s modified the %s object passed to it (call %d)" % (name, meth, layout, j),
                               detector=name, params=params, layout=layout, step=j)
                 return None
-        if alias and layout not in ("buffer", "frame_buffer"):
+        if alias and layout not in ("buffer", "frame_buffer", "readonly_buffer"):
             for a in args:
                 clobber(a)
             if count:
@@ -185,7 +194,9 @@ def run_case(case, ctx):
     from .c14 import det_params, valid_history
 
     params = det_params(name, rng)
-    calls, d = valid_history(name, rng, params)
+    calls, d = valid_history(name, rng, params, allow_1d=True)
+    if d == 1 and zoo.kind(name) == "batch":
+        ctx.count("one_column_batch_histories")
     a = run(name, params, calls, layout, True, key, ctx, True)
     if a is None:
         return
